@@ -10,13 +10,14 @@ from mirsym.values import (Adt, LV, Ref, BoxV, PyVec, PyMap, TokStr, ZStr, Bytes
 from mirsym.models.core import Ready, PendingOnce, val_eq, z_and, z_or, z_not, z_all, z_any
 from mirsym.models import extern, strings
 
-MIR = '/verif/.build/crate.mir'
+from verif_lib import build as _build
+MIR = _build.os.path.join(_build.BUILD, 'crate.mir')
 _INTERP = {}
 
 
 def get_interp(mir=MIR):
     if mir not in _INTERP:
-        _INTERP[mir] = Interp(mir)
+        _INTERP[mir] = Interp(mir, repo=_build.REPO)
     return _INTERP[mir]
 
 
